@@ -138,6 +138,8 @@ fn hash_of(t: &OwnedTerm) -> u64 {
 }
 
 pub fn run(rep: &Report) -> serde_json::Value {
+    // terms that arrive under a distribution header: a conforming sender's cache histories through one real cache
+    crate::c14::sender_histories(rep);
     let thorough = rep.thorough();
     let seqs = conv_seqs(if thorough { 3 } else { 2 });
     let idv = ids(thorough);
